@@ -159,7 +159,7 @@ def main():
             "id": sid,
             "summary": summaries.get(sid, ""),
             "breaks_property": sid.split("-")[0],
-            "needs_to_manifest": "see notes.md (section on what is needed to manifest)",
+            "needs_to_manifest": (summaries.get(sid, "") + " (details: notes.md in this directory)").strip(),
             "confirmed": {k: conf.get(k) for k in ("applies", "suite_passed", "suite_failed", "demo_path", "demo_cmd", "confirmed")},
             "demo_with_patch_exit": (conf.get("demo_with_patch") or {}).get("exit"),
             "demo_without_patch_exit": (conf.get("demo_without_patch") or {}).get("exit"),
